@@ -193,6 +193,7 @@ class MCDataSamplingBkgGenMethod(
         # Define cache members to cache the background probabilities for each
         # monte-carlo event. The probabilities change only if the data changes.
         self._cache_data_id = None
+        self._cache_data = None
         self._cache_mc = None
         self._cache_mc_event_bkg_prob = None
         self._cache_mean = None
@@ -328,6 +329,7 @@ class MCDataSamplingBkgGenMethod(
 
         # Invalidate the data cache.
         self._cache_data_id = None
+        self._cache_data = None
 
     def generate_events(
             self,
@@ -402,8 +404,11 @@ class MCDataSamplingBkgGenMethod(
                 logger.debug(
                     f'DatasetData instance id of dataset "{dataset.name}" '
                     f'changed from {self._cache_data_id} to {data_id}')
-            # Cache the current id of the data.
+            # Cache the current id of the data. Keep a reference to the data
+            # as well: the id of an object is unique only during its lifetime,
+            # i.e. a new DatasetData instance could get the id of a freed one.
             self._cache_data_id = data_id
+            self._cache_data = data
 
             # Create a copy of the MC data with all MC data fields removed,
             # except the specified MC data fields to keep for the
